@@ -49,7 +49,10 @@ EXTRA = {"C01-2": ["C07"], "C04-1": ["C07"], "C06-2": ["C07"], "C03-b1": ["C07"]
          "C04-z1": ["C01", "C05"], "C04-z2": ["C07"], "C05-z1": ["C03"], "C05-z2": ["C07", "C16"], "C06-z1": ["C19"], "C06-z2": ["C01"],
          "C07-z1": ["C08"], "C08-z2": ["C13"], "C09-z2": ["C16"], "C10-z2": ["C13"], "C11-z2": ["C13", "C12"], "C12-z1": ["C16"],
          "C13-z1": ["C08"], "C13-z2": ["C08"], "C15-z1": ["C20"], "C15-z2": ["C14"], "C16-z2": ["C12"], "C17-z2": ["C13"],
-         "C18-z2": ["C13"], "C19-z1": ["C06"], "C19-z2": ["C06"]}
+         "C18-z2": ["C13"], "C19-z1": ["C06"], "C19-z2": ["C06"],
+         "C01-q1": ["C03", "C05"], "C01-q2": ["C13"], "C03-q1": ["C05"], "C03-q2": ["C13"], "C04-q1": ["C06"], "C04-q2": ["C10"],
+         "C05-q1": ["C03"], "C05-q2": ["C10"], "C06-q1": ["C19"], "C06-q2": ["C10"], "C11-q1": ["C15"], "C11-q2": ["C10"],
+         "C17-q2": ["C08"], "C18-q1": ["C11"], "C18-q2": ["C12"], "C19-q1": ["C17"], "C19-q2": ["C07", "C13"]}
 def run_one(name, checks):
     d = os.path.join(SEEDED, name)
     wt = tempfile.mkdtemp(prefix="hsv-mx-", dir="/tmp"); os.rmdir(wt)
